@@ -198,7 +198,7 @@ def run_race(progs, timeout=180):
         fd, path = tempfile.mkstemp(prefix="race-", suffix=".txt", dir=BUILD)
         with os.fdopen(fd, "w") as f:
             for g in prog:
-                f.write("|".join(g) + "\n")
+                f.write(("PRE " + "|".join(g[1:]) if g and g[0] == "PRE" else "|".join(g)) + "\n")
         try:
             p = subprocess.run([os.path.join(BUILD, "implrun_race"), "race", path], env=dict(GOENV, GORACE="halt_on_error=0"),
                                stdout=subprocess.PIPE, stderr=subprocess.PIPE, text=True, timeout=timeout)
